@@ -276,7 +276,11 @@ def precise_diff(
                 d_diff += d1.day
             else:
                 d_diff += days_in_last_month
-        elif d_diff == days_in_month - days_in_last_month:
+        elif (
+            d_diff == days_in_month - days_in_last_month
+            and d_diff == d2.day - d1.day
+            and d2.day == days_in_month
+        ):
             # We have exactly a full month
             # We remove the days difference
             # and add one to the months difference
